@@ -55,26 +55,33 @@ def run_oracle(binary, pid, seed, prefix=None, timeout=300):
     return res
 
 
-def search(pid, failure, repo, seed, seeds=None):
+def search_all(pid, repo, seeds):
+    """All findings of the property's oracle over the given seeds (deduplicated), each with a re-run command."""
     binary = build(repo)
     if not binary:
         return None
-    seeds = seeds or [seed or 1, (seed or 1) + 1]
     prefixes = [None]
     if pid == 'C16' and shutil.which('taskset'):
         ncpu = os.cpu_count() or 1
         prefixes = [None] + [['taskset', '-c', '0-%d' % (k - 1)] for k in (1, 2, 3, 5, 6, 7, 12) if k <= ncpu]
+    res, seen = [], set()
     for sd in seeds:
         for pre in prefixes:
-            found = run_oracle(binary, pid, sd, pre)
-            if found:
-                f = found[0]
-                f['cmd'] = 'cd %s && python3 tools/replay.py %s %d%s' % (HERE, pid, sd, (' --taskset ' + pre[2]) if pre else '')
+            for f in run_oracle(binary, pid, sd, pre):
+                key = (f.get('oracle'), f.get('input'))
+                if key in seen:
+                    continue
+                seen.add(key)
                 f = dict(f)
-                f['all'] = [dict(x) for x in found[:4]]
+                f['cmd'] = 'cd %s && python3 tools/replay.py %s %d%s' % (HERE, pid, sd, (' --taskset ' + pre[2]) if pre else '')
                 f['kind'] = 'bounded replay oracle run against the real crate'
-                return f
-    return None
+                res.append(f)
+    return res
+
+
+def search(pid, failure, repo, seed, seeds=None):
+    res = search_all(pid, repo, seeds or [seed or 1, (seed or 1) + 1])
+    return res[0] if res else None
 
 
 if __name__ == '__main__':
